@@ -13,7 +13,7 @@ META = {
     "harness_bins": ["nkeval", "c02"],
     "extract": "C02.v",
     "technique": "Coq proofs about a model of contract generation and of Type::simplify (no negative check is ever dropped, none is added; first-order boundary blames the untyped side exactly on non-members and the static contract agrees with the full one for type-respecting implementations); model tied to typ.rs by comparing the skeleton of the real generated contracts (Type::contract / contract_static on parsed types) with the model's, and to the interpreter by boundary programs run in default and full-static-contract mode (hook H2)",
-    "level_text": "Theorems (coq/Props/C02.v): (1) simplify_keeps_negative / simplify_adds_no_check — for EVERY well-kinded closed type (arrows, the three kinds of forall incl. shadowing, nested containers, row tails with excluded fields, opaque contracts) the list of run-time checks of the simplified type has exactly the negative checks (those that can blame the untyped side) of the original type, at the same value paths, and contains no check the original does not have; (2) boundary_data / boundary_arrow — for first-order A, B the contract of `A -> B` blames negatively exactly on a non-A argument, whatever the body, passes an A argument unchanged and blames positively exactly on a non-B result; the same for data at either polarity (from C03); (3) boundary_arrow_static / static_equiv_arrow_partial / static_equiv_data — the static contract keeps exactly the argument check and is outcome-equivalent to the full contract for every implementation that maps A-members to B-members. Ties: the real `Type::contract` and `Type::contract_static` are run on generated types (parsed by the real parser, so with the parser's excluded sets) and the skeleton of the generated term is compared with the model's subcontract / subcontract∘simplify; boundary programs `let f : T = <typed impl> in <untyped use>` (argument, nested element, missing/extra field, callback result, non-function callback) are evaluated in default and static-full mode and compared with the model's prediction including blame polarity; default vs static-full on the same well-typed program is the direct oracle.",
+    "level_text": "Theorems (coq/Props/C02.v): (1) simplify_keeps_negative / simplify_adds_no_check — for EVERY well-kinded closed type (arrows, the three kinds of forall incl. shadowing, nested containers, row tails with excluded fields, opaque contracts) the list of run-time checks of the simplified type has exactly the negative checks (those that can blame the untyped side) of the original type, at the same value paths, and contains no check the original does not have; cchecks_subcontract / static_contract_keeps_negative — the checks read off the GENERATED contract skeleton (one clause per internals.ncl function) equal the checks read off the type, so the negative checks of what Type::contract_static generates are exactly those of what Type::contract generates; (2) boundary_data / boundary_arrow — for first-order A, B the contract of `A -> B` blames negatively exactly on a non-A argument, whatever the body, passes an A argument unchanged and blames positively exactly on a non-B result; the same for data at either polarity (from C03); (3) boundary_arrow_static / static_equiv_arrow_partial / static_equiv_data — the static contract keeps exactly the argument check and is outcome-equivalent to the full contract for every implementation that maps A-members to B-members. Ties: the real `Type::contract` and `Type::contract_static` are run on generated types (parsed by the real parser, so with the parser's excluded sets) and the skeleton of the generated term is compared with the model's subcontract / subcontract∘simplify; boundary programs `let f : T = <typed impl> in <untyped use>` (argument, nested element, missing/extra field, callback result, non-function callback) are evaluated in default and static-full mode and compared with the model's prediction including blame polarity; default vs static-full on the same well-typed program is the direct oracle.",
     "level_note": "Partial: the observational equivalence of static and full contracts (simplify_equiv) is PROVED only for first-order data and first-order arrows (static_equiv_arrow_partial); for higher-order and polymorphic types it rests on simplify_keeps_negative (syntactic) plus the direct oracle (H2) on generated and corpus programs. `checks` (which checks a type's contract performs, with polarity) is a hand-written reading of internals.ncl. Trusted: Coq kernel, extraction, the skeleton printer in harness/src/bin/c02.rs (walks the generated NickelValue; for an enum matcher it lists the applied sub-contracts and the default, not the tags), the OCaml printers, generators in checks/c02.py. Not modelled: sealing at run time ($forall_var/$forall_record_tail behaviour is C11), laziness of the argument contract (model functions are strict; generated implementations force their argument), user-defined contracts inside types (opaque).",
 }
 
